@@ -82,6 +82,10 @@ func (m *manager) get(key string) *item {
 
 // set data to storage or memory
 func (m *manager) set(key string, it *item, exp time.Duration) {
+	// the key may refer to the buffers of the request it was taken from (a KeyGenerator
+	// returning a header or query value): the store needs a string of its own, and so does
+	// a Storage that keeps the key it is given, as in-process drivers do
+	key = utils.CopyString(key)
 	if m.storage != nil {
 		if raw, err := it.MarshalMsg(nil); err == nil {
 			_ = m.storage.Set(key, raw, exp) //nolint:errcheck // TODO: Handle error here
@@ -89,8 +93,6 @@ func (m *manager) set(key string, it *item, exp time.Duration) {
 		// we can release data because it's serialized to database
 		m.release(it)
 	} else {
-		// the key may refer to the buffers of the request it was taken from (a KeyGenerator
-		// returning a header or query value): the store needs a string of its own
-		m.memory.Set(utils.CopyString(key), it, exp)
+		m.memory.Set(key, it, exp)
 	}
 }
